@@ -182,6 +182,8 @@ type raceStorm struct {
 	// lockstep: every goroutine takes document k at its k-th iteration, so that all of them meet each document (and its type)
 	// at about the same moment, and for the first time
 	lockstep bool
+	// before / after: run around the storm (a process-wide setting the program makes once before use)
+	before, after func()
 }
 
 // raceStorms: families of shared operations; the expected answers are computed here, one call at a time
@@ -363,6 +365,17 @@ func raceStorms(r *rng) []raceStorm {
 		ps.items = append(ps.items, sel.items...)
 		out = append(out, ps)
 	}
+	// the program has called Setup(true) once before use: AsJSON on numbers and lists of numbers from many goroutines answers as alone
+	{
+		mpath.Setup(true)
+		st := mk("asjson-after-setup-true", tvMap("str", [][2]any{{hx("n"), tvF64(5)}, {hx("big"), tvInt("int64", "112357")}, {hx("xs"), tvSlice(1, tvF64(1.5), tvF64(2.25), tvF64(3))},
+			{hx("o"), tvMap("str", [][2]any{{hx("a"), tvF64(1)}, {hx("b"), tvStr("s" + tag)}})}}),
+			"$.n.AsJSON()", "$.big.AsJSON()", "$.xs.AsJSON()", "$.o.AsJSON()", "$.xs.First().AsJSON()", "$.AsJSON()", "$.xs.Sum().AsJSON()", `$.xs.Select("$.Add(1)").AsJSON()`)
+		mpath.Setup(false)
+		st.before = func() { mpath.Setup(true) }
+		st.after = func() { mpath.Setup(false) }
+		out = append(out, st)
+	}
 	return out
 }
 
@@ -522,6 +535,9 @@ func init() {
 			localMism := make([][]mism, g)
 			var wg sync.WaitGroup
 			start := make(chan struct{})
+			if fam.before != nil {
+				fam.before()
+			}
 			for gi := 0; gi < g; gi++ {
 				wg.Add(1)
 				go func(gi int) {
@@ -557,6 +573,9 @@ func init() {
 			}
 			close(start)
 			wg.Wait()
+			if fam.after != nil {
+				fam.after()
+			}
 			for gi := 0; gi < g; gi++ {
 				mismatches = append(mismatches, localMism[gi]...)
 			}
